@@ -31,7 +31,9 @@ def rows(quick, fault, drop):
               ("w-drop-after-flush", "lzip", 2, ["F", "f", "D"], {}, "rand"),
               ("w-finish", "lzma2", 2, ["F", "F", "X"], {}, "rand"),
               ("w-finish-empty", "lzip", 2, ["X"], {}, "tour"),
-              ("w-1worker", "lzma2", 1, ["F", "F", "F", "X"], {}, "rand")]
+              ("w-1worker", "lzma2", 1, ["F", "F", "F", "X"], {}, "rand"),
+              # workers idle, one more unit pushed, then dropped at once
+              ("w-drop-after-3", "lzip", 2, ["F", "F", "F", "D"], {}, "tour")]
         if not quick:
             R += [("w-drop-3w", "lzma2", 3, ["F", "F", "F", "D"], {}, "tour"),
                   ("w-drop-6u", "lzip", 2, ["F", "F", "F", "F", "F", "F", "D"], {}, "rand")]
@@ -43,7 +45,10 @@ def rows(quick, fault, drop):
               ("w-empty", "lzma2", 2, ["X"], {}, "tour"),
               ("w-3w", "lzip", 3, ["F", "F", "F", "X"], {}, "rand"),
               ("w-1w", "lzma2", 1, ["F", "F", "X"], {}, "tour"),
-              ("w-preset", "lzma2", 2, ["F", "F", "P", "X"], dict(extra=dict(preset=True)), "rand")]
+              ("w-preset", "lzma2", 2, ["F", "F", "P", "X"], dict(extra=dict(preset=True)), "rand"),
+              # flush in the middle of a unit: a short unit, then full ones (unit boundaries no longer multiples)
+              ("w-midflush", "lzma2", 2, ["F", "P", "f", "F", "F", "X"], {}, "rand"),
+              ("w-midflush-lzip-3w", "lzip", 3, ["F", "P", "f", "F", "X"], {}, "rand")]
         if not quick:
             R += [("w-backpressure", "lzma2", 2, ["F", "F", "F", "F", "F", "F", "X"], {}, "rand"),
                   ("w-3w-flush", "lzma2", 3, ["F", "F", "f", "F", "F", "X"], {}, "rand"),
